@@ -243,7 +243,7 @@ func c06(c *core.Ctx, r *core.Report) {
 			}
 			if fx != nil {
 				base := an.EventFV(e, fx).Resolve(nil)
-				stateOK = an.Strip(base.V) == an.Strip(frameStateArg(runner))
+				stateOK = unspill(an.Strip(base.V)) == an.Strip(frameStateArg(runner))
 			}
 			r.Check(stateOK, core.FuncName(runner)+"#teardown-state", an.Pos(c, call), "teardown of the state handed to this call", "teardown invoked is "+an.D().Of(call.Common().Value)+", not the one of the runner's state parameter")
 			r.Check(an.Before(bodyEv, e), core.FuncName(runner)+"#teardown-after-body", an.Pos(c, call), "the teardown runs after the (recovered) body", "the iteration's cleanups run before its body")
